@@ -1,7 +1,7 @@
 META = dict(
     engine='seqx+cosched',
     technique='explicit-state model checking: BFS to closure over all arrangements of 5-7 distinguishable items (tied priorities) of the real parsec_list_t/dequeue/fifo/sorted-ring code against an array model with stable sorted insertion; plus preemption-bounded exhaustive schedule enumeration (CHESS) of the locked variants with brute-force linearizability',
-    level_text='Sequential: every reachable list arrangement of N items (N=5,6 quick; 5,6,7 thorough) x every operation of the alphabet (push/pop/try_pop front/back, push_sorted, chain_sorted, chain_front/back with rings <= 3, unchain, sort, remove, add_before/after, ring_push_sorted/chop; nolock, locked, dequeue and fifo entry points) is executed on the real inline code and compared with the model after a both-ways walk. Concurrent: every schedule with <= b preemptions (quick: b=1 on ten of the scripts; thorough: b=2 on all fourteen - the four longest at b=1 - and b=3 on the three shortest) of 2-3 thread scripts over the locked list/dequeue/fifo operations is executed and checked for linearizability, conservation of items and link consistency.',
+    level_text='Sequential: every reachable list arrangement of N items (N=5,6 quick; 5,6,7 thorough) x every operation of the alphabet (push/pop/try_pop front/back, push_sorted, chain_sorted, chain_front/back with rings <= 3, unchain, sort, remove, add_before/after, ring_push_sorted/chop; nolock, locked, dequeue and fifo entry points) is executed on the real inline code and compared with the model after a both-ways walk. Concurrent: every schedule with <= b preemptions (quick: b=1 on eight of the scripts; thorough: b=2 on all fourteen - the four longest at b=1 - and b=3 on the three shortest) of 2-3 thread scripts over the locked list/dequeue/fifo operations is executed and checked for linearizability, conservation of items and link consistency.',
     level_note='Sorted operations are only applied to sorted lists (documented precondition). Sort oracle: permutation ordered by priority, either direction. Sequential consistency at instrumented accesses; <= 3 threads, <= 2 operations per thread; try_pop may return NULL when it overlaps another operation (documented).',
 )
 RULE = ("seqx legs: BFS over operation histories on the real list, states = distinct list arrangements (canonical = sequence of item ids), every transition compared with the array model "
@@ -32,7 +32,7 @@ def check(ctx):
     for ni in ([5, 6] if quick else [5, 6, 7]):
         ctx.run_engine(build_seq(ctx, ni), ['--outdir', '/verif/out', '--deadline', '300'] + ([] if quick else ['--thorough']), label='listseq%d' % ni, timeout=900)
     exe = build_conc(ctx)
-    # The machine is shared by many checks (30-400 executions/s): quick = bound 1 on the 10 shorter scripts (1.85k schedules);
+    # The machine is shared by many checks (30-400 executions/s): quick = bound 1 on the 8 shorter scripts (1.43k schedules);
     # thorough = bound 2 on all scripts (the three longest ones and sort||push at bound 1) + bound 3 on the three shortest ones.
     bound = 1 if quick else 2
     # run_cosched passes os.environ to the harness: leg selection and the known-finding switch travel by environment
@@ -41,7 +41,7 @@ def check(ctx):
     os.environ['C31_LEG'] = 'main'
     if quick:
         os.environ['C31_QUICK'] = '1'
-    ctx.run_cosched(exe, bound, deadline=(100 if quick else 1100), label='listconc')
+    ctx.run_cosched(exe, bound, deadline=(160 if quick else 1100), label='listconc')
     if not quick:
         for sc in ('fifo_push2_pop2', 'dequeue_2x2', 'isempty_pushf_popf'):
             ctx.run_cosched(exe, 3, scenario=sc, deadline=200, label='listconc-b3-' + sc)
